@@ -19,6 +19,8 @@ bound, results and final dumps compared with both serial orders); it is not a th
 -/
 import AutosarVerif.Model.Atomicity
 import AutosarVerif.Lemmas.LocksOrder
+import AutosarVerif.Lemmas.Serializable
+import AutosarVerif.Lemmas.SerializableLocks
 
 namespace AV.C16
 open AV.Atom AV.Locks
@@ -43,5 +45,33 @@ theorem C16_write_excludes (s : Sys) (i l : Nat) (h : grantable s i l .write = t
     intro u hu
     have := h u hu
     simpa using this
+
+
+/-! ### added in the third session (proof packs LK, SR): restated by name
+(`type_of%` keeps the statement identical to the lemma; the signature is quoted in the comment) -/
+
+/-- **serializability theorem**: any number of threads, each running ONE operation whose reads and writes of the shared state lie in ONE critical section under the lock (writers exclusive, readers shared; blocking or try-acquisition, a try may fail at any time), under ANY schedule that lets all finish: the final state and every result equal those of executing the operations that got the lock one after the other in the order of acquisition; an operation outside that order reported `locked` and had no effect; only try-acquisitions can be outside
+`theorem serializable {σ ρ : Type} (ops : List (Op σ ρ)) (x0 : σ) (sched : List Act) (hdone : allDone (run ops sched (init ops x0)) = true) : (run ops sched (init ops x0)).st = (serial ops (run ops sched (init ops x0)).log x0).1 ∧ (∀ i, i < ops.length → (run ops sched (init ops x0)).pcs[i]? = some (PC.done (serialRes ops (run ops sched (init ops x0)).log x0 i))) ∧ (run ops sched (init ops x0)).log.Nodup ∧ (∀ i, i ∈ (run ops sched (init ops x0)).log → i < ops.length) ∧ (∀ i, i < ops.length → (i ∈ (run ops sched (init ops x0)).log ↔ serialRes ops (run ops sched (init ops x0)).log x0 i ≠ Res.locked)) ∧ (∀ i o, ops[i]? = some o → i ∉ (run ops sched (init ops x0)).log → o.tryAcq = true)` -/
+theorem C16_one_section_operations_are_serializable : type_of% @AV.Serializable.serializable := @AV.Serializable.serializable
+
+/-- `theorem serializable_results {σ ρ : Type} (ops : List (Op σ ρ)) (x0 : σ) (sched : List Act) (hdone : allDone (run ops sched (init ops x0)) = true) : (run ops sched (init ops x0)).pcs = (List.range ops.length).map fun i => PC.done (serialRes ops (run ops sched (init ops x0)).log x0 i)` -/
+theorem C16_results_are_those_of_the_serial_order : type_of% @AV.Serializable.serializable_results := @AV.Serializable.serializable_results
+
+/-- `theorem run_excludes {σ ρ : Type} (ops : List (Op σ ρ)) (x0 : σ) (sched : List Act) (i j : Nat) (p q : PC ρ) (hi : (run ops sched (init ops x0)).pcs[i]? = some p) (hj : (run ops sched (init ops x0)).pcs[j]? = some q) (hp : p.held = some Mode.write) (hq : q.held ≠ none) : i = j` -/
+theorem C16_writer_excludes_in_every_reachable_state : type_of% @AV.Serializable.run_excludes := @AV.Serializable.run_excludes
+
+/-- **the hypothesis is necessary** (= known finding c16:concurrent-load-into-empty-model): a load is TWO critical sections (check, then act); the sections are serializable, the loads are not: the interleaving check0 check1 act0 act1 ends in a state neither serial order of the two loads produces
+`theorem two_sections_not_serializable : let s` -/
+theorem C16_two_sections_are_not_serializable : type_of% @AV.Serializable.two_sections_not_serializable := @AV.Serializable.two_sections_not_serializable
+
+/-- `theorem one_section_load_never_loses (sched : List Act) (hdone : allDone (run loadWholes sched (init loadWholes loadInit)) = true) : ((run loadWholes sched (init loadWholes loadInit)).st = Atom.run [0, 0, 1, 1] Atom.empty [.start 1, .start 2] ∨ (run loadWholes sched (init loadWholes loadInit)).st = Atom.run [1, 1, 0, 0] Atom.empty [.start 1, .start 2]) ∧ (run loadWholes sched (init loadWholes loadInit)).st ≠ Atom.run [0, 1, 0, 1] Atom.empty [.start 1, .start 2]` -/
+theorem C16_load_as_one_section_would_be_serializable : type_of% @AV.Serializable.one_section_load_never_loses := @AV.Serializable.one_section_load_never_loses
+
+/-- `theorem two_blocking_orders {σ ρ : Type} (o0 o1 : Op σ ρ) (x0 : σ) (sched : List Act) (h0 : o0.tryAcq = false) (h1 : o1.tryAcq = false) (hdone : allDone (run [o0, o1] sched (init [o0, o1] x0)) = true) : (run [o0, o1] sched (init [o0, o1] x0)).log = [0, 1] ∨ (run [o0, o1] sched (init [o0, o1] x0)).log = [1, 0]` -/
+theorem C16_two_blocking_operations_two_orders : type_of% @AV.Serializable.two_blocking_orders := @AV.Serializable.two_blocking_orders
+
+/-- bridge to the lock model of C15 (`Model/Locks.lean`, fair writer-preferring policy): every lock event it allows is a step of the serializability machine
+`theorem locks_step_sim {σ ρ : Type} (ops : List (Op σ ρ)) (s : Sys σ ρ) (hlen : s.pcs.length = ops.length) (i : Nat) (l' : Locks.Sys) (hpc : s.pcs[i]? = some (PC.pre 0) ∨ ∃ m r, s.pcs[i]? = some (PC.eff m r)) (h : Locks.stepTh (projSys ops s.pcs) i = some l') : ∃ a s', (a = Act.go i ∨ a = Act.giveUp i) ∧ act ops s a = some s' ∧ projSys ops s'.pcs = l'` -/
+theorem C16_lock_model_steps_are_machine_steps : type_of% @AV.Serializable.locks_step_sim := @AV.Serializable.locks_step_sim
 
 end AV.C16
